@@ -404,6 +404,15 @@ def suite_C12():
             exp = (t == ty) or t == 'anything' or (t == 'number' and ty in ('int', 'rational', 'float', 'complex')) or (t == 'func' and ty == 'type')
             cases.append(('i%d' % k, '%s is %s' % (v, t), str(int(exp)), dict(value=v, type=t)))
             k += 1
+    # a type annotation is enforced by every later assignment form (C12): the program must raise
+    for decl, stmt in [('n: int = 7', 'n = 1/2'), ('n: int = 7', 'n /= 2'), ('n: int = 7', 'n += 0.5'), ('xs: list = [1, 2]', 'xs = "s"'),
+                       ('xs: list = [1, 2]', 'xs join= ","'), ('q: rational = 1/2', 'q = 1'), ('s: str = "a"', 's = 1'), ('n: number = 1', 'n = "x"')]:
+        cases.append(('e%d' % k, '(\\ -> (%s; %s; "completed"))()' % (decl, stmt), 'ERR', dict(declaration=decl, statement=stmt, what='annotation must be enforced')))
+        k += 1
+    for decl, stmt, exp in [('n: int = 7', 'n += 1', '8'), ('q: rational = 1/2', 'q *= 3', '3/2'), ('n: number = 1', 'n = 2.5', '2.5'), ('xs: list = [1]', 'xs append= 2', '[1, 2]')]:
+        var = decl.split(':')[0]
+        cases.append(('k%d' % k, '(\\ -> (%s; %s; %s))()' % (decl, stmt, var), exp, dict(declaration=decl, statement=stmt, what='type-preserving assignment is accepted')))
+        k += 1
     return setup, cases
 
 
@@ -533,15 +542,60 @@ def suite_C03():
     return setup, cases
 
 
+def suite_C14():
+    """bound: boundary programs that must end in a value or a catchable error, never a crash: zero divisors and zero bases of
+    every numeric level, indices and slice bounds at +-2^63 and beyond, zero / huge steps, empty sequences"""
+    cases = []
+    k = 0
+    zeros = ['0', '(0/1)', '0.0', '(0-0.0)', '(0+0i)', big_repr(0), '((1/2) - (1/2))']
+    nums = ['5', '(0-5)', '(7/2)', '2.5', '(1+2i)', '2^70', '0', '(0/1)']
+    for a, z in itertools.product(nums, zeros):
+        for op in ['%', '//', '%%', '/!', '/', 'gcd', 'lcm']:
+            cases.append(('z%d' % k, '%s %s %s' % (a, op, z), None, dict(a=a, b=z, op=op)))
+            k += 1
+    for z, e in itertools.product(zeros + ['(0-0)', '1', '(0-1)', '(1/2)'], ['(0-1)', '(0-2)', '0', '((0-1)/2)', '(0-1.5)', '(0-64)']):
+        cases.append(('p%d' % k, '%s ^ %s' % (z, e), None, dict(base=z, exponent=e, op='^')))
+        k += 1
+    ext = ['(0-9223372036854775808)', '9223372036854775807', '(0-9223372036854775807)', '9223372036854775808', '(0-9223372036854775809)', '2^64', '(0-2^64)', '(1/2)', '1.5', 'null', '"x"']
+    seqs = ['[]', '[1, 2, 3]', '""', '"abc"', 'vector([1, 2])', 'bytes([1, 2])', 'stream([1, 2, 3])', '(1 til 4)', '(1 til 4)[1:]']
+    for sq, i in itertools.product(seqs, ext):
+        cases.append(('i%d' % k, '(%s)[%s]' % (sq, i), None, dict(seq=sq, index=i)))
+        k += 1
+        cases.append(('s%d' % k, '(%s)[%s:]' % (sq, i), None, dict(seq=sq, lo=i)))
+        k += 1
+        cases.append(('t%d' % k, '(%s)[:%s]' % (sq, i), None, dict(seq=sq, hi=i)))
+        k += 1
+        cases.append(('u%d' % k, '(%s)[1:%s]' % (sq, i), None, dict(seq=sq, lo=1, hi=i)))
+        k += 1
+    for sq in seqs:
+        for f in ['first', 'last', 'tail', 'butlast', 'len', 'reverse', 'sort', 'max', 'min', 'sum', 'unique']:
+            cases.append(('f%d' % k, '%s(%s)' % (f, sq), None, dict(fn=f, seq=sq)))
+            k += 1
+        for op in ['!!', '!?', '!%']:
+            for i in ['0', '(0-1)', '5', '(0-9223372036854775808)', '2^64']:
+                cases.append(('o%d' % k, '%s %s %s' % (sq, op, i), None, dict(seq=sq, op=op, index=i)))
+                k += 1
+    for a, b, st in itertools.product(['0', '5', '2^64'], ['0', '5', '(0-3)'], ['0', '(0-0)', '1', '(0-1)', '2^64', '(0/1)', '0.0']):
+        cases.append(('r%d' % k, 'len(%s til %s by %s)' % (a, b, st), None, dict(start=a, end=b, step=st, what='len')))
+        k += 1
+    for x in ['1 << 200', '1 >> 200', '(0-1) >> 64', '1 << (0-1)', '1 << (1/2)', '5 & 1.5', '~(1/2)', 'signum(0.0/0.0)', 'abs(0-9223372036854775808)',
+              'floor(1.0/0.0)', 'round(0.0/0.0)', 'int(1e300)', 'numerator(1.5)', 'even(1/2)', 'odd(0-3)', '(0-9223372036854775808) // (0-1)',
+              '(0-9223372036854775808) % (0-1)', '(0-9223372036854775808) %% (0-1)', '(0-9223372036854775808) /! (0-1)', '9223372036854775807 + 1', '(0-9223372036854775808) - 1',
+              '3037000500 * 3037000500', '0 - (0-9223372036854775808)', 'str_radix(5, 1)', 'str_radix(5, 37)', 'int_radix("zz", 36)', 'F"{(0-9223372036854775808) #x}"']:
+        cases.append(('m%d' % k, x, None, dict(expr=x)))
+        k += 1
+    return '', cases
+
+
 SUITES = {'C03': suite_C03, 'C06': suite_C06, 'C07': suite_C07, 'C08': suite_C08, 'C09': suite_C09, 'C10': suite_C10, 'C11': suite_C11,
-          'C12': suite_C12, 'C16': suite_C16}
+          'C12': suite_C12, 'C14': suite_C14, 'C16': suite_C16}
 # a crash is a C14 violation whichever suite produced it
-C14_SUITES = ['C06', 'C07', 'C10', 'C11', 'C08']
+C14_SUITES = ['C14', 'C10', 'C11', 'C07', 'C08', 'C06']
 
 
 def evaluate(binp, prop, limit=3):
     """-> (n_cases, failures[list of dict]) for the property's suite(s)"""
-    names = [prop] if prop in SUITES else (C14_SUITES if prop == 'C14' else [])
+    names = (C14_SUITES if os.environ.get('VERIF_TIER') == 'thorough' else C14_SUITES[:3]) if prop == 'C14' else ([prop] if prop in SUITES else [])
     total, fails = 0, []
     for nm in names:
         setup, cases = SUITES[nm]()
